@@ -44,7 +44,7 @@ func (c Channel) TokenReader() xml.TokenReader {
 	}
 	if len(c.Extensions) > 0 {
 		payloads = append(payloads, xmlstream.Wrap(
-			xml.NewDecoder(bytes.NewReader(c.Extensions)),
+			stripXMLNS(xml.NewDecoder(bytes.NewReader(c.Extensions))),
 			xml.StartElement{
 				Name: xml.Name{Local: "extensions"},
 			},
@@ -82,6 +82,37 @@ func (c Channel) MarshalXML(e *xml.Encoder, _ xml.StartElement) error {
 	return err
 }
 
+// stripXMLNS removes the xmlns attributes that a decoder reports in addition to
+// the namespace of the element name; encoding both would result in a duplicate
+// attribute.
+func stripXMLNS(r xml.TokenReader) xml.TokenReader {
+	return xmlstream.RemoveAttr(func(_ xml.StartElement, attr xml.Attr) bool {
+		return attr.Name.Space == "" && attr.Name.Local == "xmlns"
+	})(r)
+}
+
+// extensions captures the contents of the extensions element as XML.
+// It does not use innerxml because that is always empty when decoding from a
+// token stream (as opposed to decoding from bytes).
+type extensions struct {
+	Val []byte
+}
+
+func (e *extensions) UnmarshalXML(d *xml.Decoder, _ xml.StartElement) error {
+	var buf bytes.Buffer
+	enc := xml.NewEncoder(&buf)
+	_, err := xmlstream.Copy(enc, stripXMLNS(xmlstream.Inner(d)))
+	if err != nil {
+		return err
+	}
+	err = enc.Flush()
+	if err != nil {
+		return err
+	}
+	e.Val = buf.Bytes()
+	return nil
+}
+
 // UnmarshalXML implements xml.Unmarshaler.
 func (c *Channel) UnmarshalXML(d *xml.Decoder, start xml.StartElement) error {
 	data := struct {
@@ -90,9 +121,7 @@ func (c *Channel) UnmarshalXML(d *xml.Decoder, start xml.StartElement) error {
 		Autojoin   bool     `xml:"autojoin,attr"`
 		Nick       string   `xml:"nick"`
 		Password   string   `xml:"password"`
-		Extensions struct {
-			Val []byte `xml:",innerxml"`
-		} `xml:"extensions"`
+		Extensions extensions `xml:"extensions"`
 	}{}
 	err := d.DecodeElement(&data, &start)
 	if err != nil {
